@@ -37,7 +37,11 @@ def tab_eval(val, key, io, vi):
     if len(val["vi"]) == 1 or rows_identical(val, key):
         v = _interp1(val["io"], val[key][0], io)
         return (v, v)
-    # general 2-D table: bounds from the enclosing (clamped) cell
+    # general 2-D table.  sysloss interpolates linearly on a triangulation of
+    # the rectangular grid; every triangle lies inside one grid cell, so inside
+    # a cell the value is one of the two planar interpolations given by the
+    # cell's two diagonals ('linear between, within the corner values').  The
+    # oracle accepts the interval spanned by those two (exact on grid lines).
     xs = [abs(a) for a in val["io"]]
     ys = [abs(a) for a in val["vi"]]
     order = sorted(range(len(ys)), key=lambda j: ys[j])
@@ -45,28 +49,36 @@ def tab_eval(val, key, io, vi):
     x = min(max(abs(io), xs[0]), xs[-1])
     y = min(max(abs(vi), ys_s[0]), ys_s[-1])
 
-    def cell(arr, q):
-        # every cell [a_k, a_k+1] that contains q (two cells when q is on a line)
-        ks = []
-        for k in range(len(arr) - 1):
-            if arr[k] <= q <= arr[k + 1]:
-                ks.append(k)
-        if not ks:
-            ks = [0]
-        idx = set()
-        for k in ks:
-            idx.add(k)
-            idx.add(min(k + 1, len(arr) - 1))
-        return sorted(idx)
+    def cells(arr, q):
+        ks = [k for k in range(len(arr) - 1) if arr[k] <= q <= arr[k + 1]]
+        return ks or [0]
 
-    xi = cell(xs, x)
-    yi = cell(ys_s, y)
-    vals = []
-    for j in yi:
-        row = val[key][order[j]]
-        for i in xi:
-            vals.append(abs(row[i]))
-    return (min(vals), max(vals))
+    lo, hi = None, None
+    for j in cells(ys_s, y):
+        for i in cells(xs, x):
+            x0, x1 = xs[i], xs[min(i + 1, len(xs) - 1)]
+            y0, y1 = ys_s[j], ys_s[min(j + 1, len(ys_s) - 1)]
+            r0 = val[key][order[j]]
+            r1 = val[key][order[min(j + 1, len(ys_s) - 1)]]
+            f00, f10 = abs(r0[i]), abs(r0[min(i + 1, len(xs) - 1)])
+            f01, f11 = abs(r1[i]), abs(r1[min(i + 1, len(xs) - 1)])
+            u = (x - x0) / (x1 - x0) if x1 > x0 else 0.0
+            v = (y - y0) / (y1 - y0) if y1 > y0 else 0.0
+            # diagonal 00-11
+            if u >= v:
+                t1 = f00 + u * (f10 - f00) + v * (f11 - f10)
+            else:
+                t1 = f00 + v * (f01 - f00) + u * (f11 - f01)
+            # diagonal 10-01
+            if u + v <= 1.0:
+                t2 = f00 + u * (f10 - f00) + v * (f01 - f00)
+            else:
+                t2 = f11 + (1.0 - u) * (f01 - f11) + (1.0 - v) * (f10 - f11)
+            for t in (t1, t2):
+                lo = t if lo is None else min(lo, t)
+                hi = t if hi is None else max(hi, t)
+    pad = 1e-9 * max(abs(lo), abs(hi))
+    return (lo - pad, hi + pad)
 
 
 def table_is_interval(val, key):
